@@ -158,9 +158,11 @@ parser! {
 		pub rule string_block() -> String
 			= "|||" chomped:"-"? (!['\n']single_whitespace())* "\n"
 			empty_lines:$(['\n']*)
-			prefix:[' ' | '\t']+ first_line:whole_line()
-			lines:("\n" {"\n"} / [' ' | '\t']*<{prefix.len()}> s:whole_line() {s})*
-			[' ' | '\t']*<, {prefix.len() - 1}> "|||"
+			prefix:$([' ' | '\t']+) first_line:whole_line()
+			// Every following line repeats the indentation of the first one character by character,
+			// the terminator line does not
+			lines:("\n" {"\n"} / ##parse_string_literal(prefix) s:whole_line() {s})*
+			!##parse_string_literal(prefix) [' ' | '\t']* "|||"
 			{
 				let mut l = empty_lines.to_owned();
 				l.push_str(first_line);
